@@ -41,7 +41,7 @@ def regen_all():
     """Every translator, before anything is built: the model the theorems and the extracted driver are about is the
     one regenerated from /repo's current source."""
     return {"Tables": regen("translate.py", "Tables"), "Facts": regen("translate_facts.py", "Facts"),
-            "Bytes": regen("translate_bytes.py", "Bytes")}
+            "Bytes": regen("translate_bytes.py", "Bytes"), "Subset": regen("translate_subset.py", "Subset")}
 
 
 def wh_check(pid, tier, seed, t0):
@@ -532,8 +532,14 @@ def cfail_coq_term(d):
     if d[0] == "inside":
         return "CInside"
     if d[0] == "thread":
-        api = {"world_move": "TWorldMove", "world_share": "TWorldShare", "iter_ref": "TViewRef", "iter_mut": "TViewMut"}[d[1]]
-        return "CThread %s %s %s" % (api, b(d[2]), b(d[3]))
+        apis = {"world_move": "TWorldMove", "world_share": "TWorldShare", "iter_ref": "TViewRef", "iter_mut": "TViewMut"}
+        for par_ in (False, True):
+            sfx_ = "_par" if par_ else ""
+            apis["task_sys" + sfx_] = "(TTaskSelf %s)" % b(par_)
+            for w_, cw_ in (("view", "WViews"), ("res", "WRes"), ("entry", "WEntry")):
+                apis["task_%s_ref%s" % (w_, sfx_)] = "(TTaskRef %s %s)" % (b(par_), cw_)
+                apis["task_%s_mut%s" % (w_, sfx_)] = "(TTaskMut %s %s)" % (b(par_), cw_)
+        return "CThread %s %s %s" % (apis[d[1]], b(d[2]), b(d[3]))
     if d[0] == "overlap":
         return "COverlap %s %s %s" % (d[1], b(d[2]), b(d[3]))
     if d[0] == "shared":
@@ -584,7 +590,15 @@ def cfail_check(pid, tier, seed, t0):
                 spans = [sp for sp in m["message"].get("spans", []) if sp.get("is_primary")] or m["message"].get("spans", [])
                 code = (m["message"].get("code") or {}).get("code")
                 for sp in spans[:1]:
-                    errs.append((sp["line_start"], code, m["message"]["message"][:160]))
+                    # a span inside a macro of the library: follow the expansion back to the call site in the program
+                    hops = 0
+                    while not sp.get("file_name", "").endswith("src/lib.rs") and (sp.get("expansion") or {}).get("span") and hops < 16:
+                        sp = sp["expansion"]["span"]
+                        hops += 1
+                    if not sp.get("file_name", "").endswith("src/lib.rs"):
+                        errs.append((-1, code, m["message"]["message"][:160] + " @" + sp.get("file_name", "?")))
+                    else:
+                        errs.append((sp["line_start"], code, m["message"]["message"][:160]))
             if not saw_result and not errs:
                 infra = "cargo check produced no result for %s: %s" % (crate, p.stdout[-800:])
             for pr in fam:
